@@ -2,6 +2,7 @@
 package checks
 
 import (
+	_ "verif/harness/internal/c01"
 	_ "verif/harness/internal/c03"
 	_ "verif/harness/internal/c07"
 	_ "verif/harness/internal/c08"
